@@ -260,6 +260,8 @@ class World:
             out = ("exc", e)
         self.logical_time += sm.total
         self.line_events += sm.lines
+        for k, v in sm.observed.items():
+            self.probes[k] += v
         return out, sm, g
 
     def _ref_clusters(self, i, op, need_lines=False):
@@ -649,6 +651,26 @@ class World:
         return {"out": "ok", "dg": sha(dg)}
 
     # ------------------------------------------------------------------
+    def _op_TRANSFORM(self, i, op):
+        """The caller changes its own Atoms object in place (the MD / relaxation
+        loop pattern) into the state recorded as structure op['dst'] and keeps
+        passing the *same object*.  Later operations name op['dst']."""
+        src, dst = op["src"], op["dst"]
+        obj = self._atoms(src)
+        new = spec_to_atoms(self.spec["structures"][dst])
+        if len(new) != len(obj):
+            raise HarnessError("TRANSFORM needs equal atom counts")
+        obj.set_cell(new.cell.array, scale_atoms=False)
+        obj.set_pbc(new.pbc)
+        obj.set_atomic_numbers(new.numbers)
+        obj.set_positions(new.positions, apply_constraint=False)
+        del self.atoms[src]
+        del self.snaps[src]
+        self.atoms[dst] = obj
+        self.snaps[dst] = Snapshot(obj)
+        self.probes["caller_mutated_own_atoms"] += 1
+        return {"out": "ok"}
+
     def _op_ENV(self, i, op):
         kind = op["kind"]
         x = int(op.get("x", 0))
